@@ -11,6 +11,7 @@ CLAIMED = {
  "C11": ("exploration", "S", "deterministic simulation: rendezvous of all group heads of a stage on a pool with exactly enough workers; exact deadlock detection, no timeouts", "5.C11"),
  "C12": ("exploration", "S", "deterministic simulation: task identity, start time and order of thread-local systems recorded in the event history under seeded schedules", "5.C12"),
  "C13": ("exploration", "S", "deterministic simulation of the lifecycle (setup / remove / overwrite / setup again / dispatches incl. panicking ones / dispose) against a reference world and per-system lifecycle counters", "5.C13"),
+ "C15": ("exploration", "S", "deterministic simulation: the caller is a simulated task issuing dispatch/running/wait/world/... at scheduler-chosen instants; blocking accessors run the real mpsc::recv through the detach protocol; oracle evaluated at the instant each accessor returns", "5.C15"),
  "C14": ("fault_enumeration", "S", "fault injection: every system position of every generated plan panics once (three points), sibling phase arranged by the scheduler; containment oracles on the history and on the following dispatch", "5.C14"),
 }
 NA = {
